@@ -1089,6 +1089,7 @@ def run(ctx):
 _P = "phyclone/process_trace/process_trace.py"
 _R = "phyclone/run.py"
 SELFTEST = [
+    {"name": "I1-eq-ignores-outliers", "kind": "break", "rule": "I1", "file": "phyclone/tree/tree.py", "old": "        self_key = (self.get_clades(), frozenset(self.outliers))\n\n        other_key = (other.get_clades(), frozenset(other.outliers))\n\n        return self_key == other_key", "new": "        return self.get_clades() == other.get_clades()"},
     # ---- A6
     {"name": "A6-report-not-written", "kind": "break", "rule": "A6", "file": _P, "old": '    topology_df.to_csv(out_file, index=False, sep="\\t")\n\n    print("Topology report created', "new": '    print("Topology report created'},
     {"name": "A6-report-written-to-archive-path", "kind": "break", "rule": "A6", "file": _P, "old": 'topology_df.to_csv(out_file, index=False, sep="\\t")', "new": 'topology_df.to_csv(topologies_archive, index=False, sep="\\t")'},
